@@ -63,14 +63,29 @@ def plan(ctx):
         if ctx.quick and ws == 12:
             pct = rng.randint(6, 9)             # ISO/IEC 24778 allows 5%..95%; few check words keep TLC's parity computation short
         out.append(dict(c=c, layers=l, pct=pct, seed=rng.randrange(1, 1 << 30)))
+    # scripts that random drawing practically never produces: texts made of the two-character PUNCT codes (CR LF, ". ", ", ", ": " cost 2.5
+    # bits per output byte - every size bound derived from "a byte costs at least 4 bits" breaks), and ONE binary-shift run of the greatest
+    # length the 11-bit long form can state (2047 + 31 bytes), in the two largest symbols
+    LP = [[1, 2, 0, 0, 0], [1, 3, 0, 0, 0]]                    # latch Upper -> Mixed -> Punct
+    forced = [dict(c=1, layers=1, items=LP + [[0, 3, 1, 0, 6]]), dict(c=1, layers=3, items=LP + [[0, 3, 3, 0, 20]]),
+              dict(c=0, layers=4, items=LP + [[0, 3, 2, 0, 9], [0, 3, 1, 0, 30]]),
+              dict(c=0, layers=12, items=[[0, 0, 1, 0, 1]] + LP + [[0, 3, 4, 0, 40], [0, 3, 1, 0, 200]]),
+              dict(c=0, layers=32, items=[[3, 0, 7, 13, 2078]])]
+    if not ctx.quick:
+        forced += [dict(c=0, layers=27, items=LP + [[0, 3, 1, 0, 1500]]), dict(c=0, layers=31, items=[[3, 0, 200, 57, 2048]]),
+                   dict(c=0, layers=32, items=[[0, 0, 2, 1, 5], [3, 0, 0, 1, 2060]]), dict(c=0, layers=30, items=[[3, 0, 1, 3, 2047]])]
+    for fz in forced:
+        out.append(dict(c=fz["c"], layers=fz["layers"], pct=5, seed=rng.randrange(1, 1 << 30), items=fz["items"]))
     return out
 
 
 def gen_symbols(ctx, cases):
     """One TLC simulation per symbol: a random script filling the symbol + fault sets up to capacity + the module matrix."""
     def one(k):
+        extra = dict(UseForced="TRUE") if k.get("items") else {}
         res = _tlc(ctx, "MC_Aztec", "Gen_Aztec", workers=1, timeout=1700,
-                   consts=dict(Compact=k["c"], Layers=k["layers"], EcPct=k["pct"]),
+                   consts=dict(Compact=k["c"], Layers=k["layers"], EcPct=k["pct"], **extra),
+                   files={"forced.ndjson": [dict(items=k["items"])]} if k.get("items") else None,
                    args=["-simulate", "num=1", "-depth", "100000", "-seed", str(k["seed"])])
         out = vlib.tlc_printed(res)
         if len(out) != 1:
@@ -180,6 +195,17 @@ def mode_messages(ctx, rng):
             n += 1
             t.append(dict(BLANK, op="det", nd=nd, flips=cells, rot=rng.randrange(4), scale=rng.choice([3, 3, 4]), quiet=rng.choice([2, 3]), id=n))
         traces.append(t)
+    # many more pictures of the small full-range sizes at 3 pixels per module, unturned: whether the ring round the bull's eye is taken for
+    # another ring of it depends on the mode message AND on the data modules next to it (seeded fills)
+    for k in cores:
+        if k["c"] == 0 and k["layers"] <= 8:
+            x = out[(0, k["layers"])]
+            t = [dict(BLANK, op="tmpl", c=0, layers=k["layers"], rows=x["rows"], mask=x["mask"])]
+            for rep in range(12 if ctx.quick else 120):
+                for nd, cells in zip(x["nds"], x["modes"]):
+                    n += 1
+                    t.append(dict(BLANK, op="det", nd=nd, flips=cells, rot=0, scale=3, quiet=rng.choice([2, 3]), id=n))
+            traces.append(t)
     return traces
 
 
